@@ -42,7 +42,7 @@ SortedBy(rows, ks, asc) == \A i \in 1..(Len(rows) - 1) : LexLeq(rows[i], rows[i 
 RECURSIVE OrdDefined(_)
 OrdDefined(q) ==
     IF q.op = "src" THEN TRUE
-    ELSE CASE q.op \in {"merge", "sort", "setindex", "dropdup", "nlargest", "unique", "valuecounts", "shuffle"} -> FALSE
+    ELSE CASE q.op \in {"merge", "sort", "setindex", "dropdup", "nlargest", "nsmallest", "unique", "valuecounts", "shuffle"} -> FALSE
            [] q.op \in {"groupby", "reduce", "len"} -> TRUE
            [] q.op = "mergeasof" -> OrdDefined(q.c[1])         \* one output row per left row, in the left order
            [] q.op = "combinefirst" -> FALSE        \* aligned through a hash shuffle when divisions are unknown
